@@ -1255,8 +1255,8 @@ class Interp:
         ast.Add: lambda a, b: a + b,
         ast.Sub: lambda a, b: a - b,
         ast.Mult: lambda a, b: a * b,
-        ast.FloorDiv: lambda a, b: floordiv(a, b) if (is_sym(a) or is_sym(b)) else a // b,
-        ast.Mod: lambda a, b: mod(a, b) if (is_sym(a) or is_sym(b)) else a % b,
+        ast.FloorDiv: lambda a, b: floordiv(a, b) if (is_sym(a) or is_sym(b)) and isinstance(a, (SV, int, float)) and isinstance(b, (SV, int, float)) else a // b,
+        ast.Mod: lambda a, b: mod(a, b) if (is_sym(a) or is_sym(b)) and isinstance(a, (SV, int, float)) and isinstance(b, (SV, int, float)) else a % b,
         ast.Div: lambda a, b: a / b,
         ast.Pow: lambda a, b: a ** b,
         ast.BitAnd: lambda a, b: a & b,
